@@ -51,6 +51,7 @@ type Exec struct {
 	panicProps []string // properties the implicit safety obligations are charged to
 	noInline   map[string]bool
 	work       []*State
+	cur        *State
 	hooks      *Hooks
 
 	usedExt       map[string]bool
@@ -63,6 +64,7 @@ type Exec struct {
 	loopCounter   int
 	overflowProps []string
 	sqlProps      []string
+	globalObj     map[*ssa.Global]int
 	txProps       []string
 	assertProps   []string
 }
@@ -73,10 +75,14 @@ type Hooks struct {
 }
 
 func NewExec(prog *Program, fn *ssa.Function) *Exec {
-	return &Exec{prog: prog, sym: NewSymCtx(), fn: fn, oblSeen: map[string]bool{}, unsupSeen: map[string]bool{},
+	x := &Exec{prog: prog, sym: NewSymCtx(), fn: fn, oblSeen: map[string]bool{}, unsupSeen: map[string]bool{},
 		maxPaths: 6000, depthMax: 4, covers: map[string]bool{}, feasCache: map[string]bool{}, noInline: map[string]bool{},
 		usedExt: map[string]bool{}, usedContracts: map[string]bool{}, inlined: map[string]bool{}, forceContract: map[string]bool{},
-		notes: map[string]bool{}, structCodecs: map[string]structCodec{}}
+		notes: map[string]bool{}, structCodecs: map[string]structCodec{}, globalObj: map[*ssa.Global]int{}}
+	if prog.spec != nil {
+		x.sym.preset = prog.spec.lits
+	}
+	return x
 }
 
 func (x *Exec) unsupported(st *State, why string) {
@@ -233,11 +239,11 @@ func (x *Exec) constant(st *State, c *ssa.Const) Value {
 }
 
 func (x *Exec) global(st *State, g *ssa.Global) Value {
-	id, ok := x.prog.globalObj[g]
+	id, ok := x.globalObj[g]
 	if !ok {
 		x.nextObj++
 		id = x.nextObj
-		x.prog.globalObj[g] = id
+		x.globalObj[g] = id
 	}
 	if _, ok := st.heap[id]; !ok {
 		name := "global." + g.Pkg.Pkg.Path() + "." + g.Name()
@@ -298,6 +304,7 @@ func (x *Exec) run(init *State) {
 			return
 		}
 		steps := 0
+		x.cur = st
 		for !st.dead && len(st.frames) > 0 {
 			x.step(st)
 			steps++
@@ -318,9 +325,7 @@ func (x *Exec) enterBlock(st *State, fr *Frame, to *ssa.BasicBlock) {
 	fr.prev = fr.block
 	fr.block = to
 	fr.ip = 0
-	if x.isLoopHeader(fr.fn, to) {
-		x.atLoopHeader(st, fr, to)
-	}
+	fr.headerDone = false
 }
 
 func (x *Exec) step(st *State) {
@@ -328,6 +333,15 @@ func (x *Exec) step(st *State) {
 	if fr.ip >= len(fr.block.Instrs) {
 		x.unsupported(st, "fell off block")
 		return
+	}
+	if !fr.headerDone && fr.ip == firstNonPhi(fr.block) {
+		fr.headerDone = true
+		if x.isLoopHeader(fr.fn, fr.block) {
+			x.atLoopHeader(st, fr, fr.block)
+			if st.dead {
+				return
+			}
+		}
 	}
 	instr := fr.block.Instrs[fr.ip]
 	switch in := instr.(type) {
@@ -352,9 +366,6 @@ func (x *Exec) step(st *State) {
 			ph, ok := fr.block.Instrs[j].(*ssa.Phi)
 			if !ok {
 				break
-			}
-			if _, havocked := fr.env[ph]; havocked && fr.cut[fr.block] != nil && fr.cut[fr.block].entryPC == -2 {
-				continue
 			}
 			vals[ph] = x.eval(st, fr, ph.Edges[idx])
 		}
@@ -460,7 +471,9 @@ func (x *Exec) doReturn(st *State, fr *Frame, res []Value) {
 			return
 		}
 	}
-	if fr.retInstr != nil {
+	if fr.wrapAwait {
+		caller.env[fr.retInstr] = VAwait{Done: true, Results: res}
+	} else if fr.retInstr != nil {
 		if len(res) == 1 {
 			caller.env[fr.retInstr] = res[0]
 		} else {
